@@ -384,8 +384,10 @@ Section Wait.
     destruct (wait_start c g ids s) as [s1 w1]. cbn [fst snd] in *.
     destruct (start_events_body g ids esA FA) as [SA1 SA2].
     specialize (SA1 ids (fun x Hx => Hx)).
+    assert (RS : forall s' body, emits s s' body -> emits s (wait_reset sc c ids s') body).
+    { intros s' body E. rewrite <- (app_nil_r body). eapply emits_trans; [exact E|]. apply emits_same. apply wait_reset_tr. }
     destruct (w_pending w1) eqn:EP1.
-    { exists (esA ++ []). split; [rewrite app_nil_r; exact EA|]. apply (wspec_mk c g ids esA [] []); auto. }
+    { exists (esA ++ []). split; [rewrite app_nil_r; apply RS; exact EA|]. apply (wspec_mk c g ids esA [] []); auto. }
     rewrite <- EP1 in *.
     assert (NE1 : w_pending w1 <> []) by (rewrite EP1; discriminate). clear EP1.
     destruct (match e_watch_err_at (sc_env sc) with Some n => Nat.eqb n (snd g) | None => false end).
@@ -400,7 +402,7 @@ Section Wait.
     { intros j Hj. destruct (SA2 j Hj) as [st H]. exists st. apply in_or_app. left. exact H. }
     assert (E12 : emits s s2 (esA ++ esB)) by (exact (emits_trans _ _ _ _ _ EA EB)).
     destruct (w_pending w2) eqn:EP2.
-    { exists ((esA ++ esB) ++ []). split; [rewrite app_nil_r; exact E12|]. apply (wspec_mk c g ids (esA ++ esB) [] []); auto. }
+    { exists ((esA ++ esB) ++ []). split; [rewrite app_nil_r; apply RS; exact E12|]. apply (wspec_mk c g ids (esA ++ esB) [] []); auto. }
     rewrite <- EP2 in *.
     assert (NE2 : w_pending w2 <> []) by (rewrite EP2; discriminate). clear EP2.
     assert (ABORT : exists body, emits s (set_abort s2) body /\ wspec c g ids body (r_abort (set_abort s2))).
@@ -410,7 +412,7 @@ Section Wait.
     destruct (w_end _); [|exact ABORT].
     destruct (has_to c) eqn:HT; [|exact ABORT].
     exists ((esA ++ esB) ++ map (fun i => EWait g i WTimedOut) (w_pending w2)). split.
-    - eapply emits_trans; [exact E12|apply wait_timeout_events].
+    - apply RS. eapply emits_trans; [exact E12|apply wait_timeout_events].
     - apply (wspec_mk c g ids (esA ++ esB) _ (w_pending w2)); auto.
   Qed.
 End Wait.
